@@ -134,6 +134,20 @@ impl Family for Parse {
                 return Some((w, d));
             }
         }
+        // (1b) literal pieces in every kind of host: groups of plain characters nested in groups, next to more plain characters, as the whole
+        // body of a look-around / atomic group / repeat, with flag groups -- what compile_delegate(s) turn into ONE Lit or Delegate instruction
+        let bodies = ["(?:ab)c", "a(?:bc)", "(?:(?:ab)c)d", "(?:a(?:bc))d", "(?i:ab)c", "(?-i:ab)c", "(?s:ab)c", "(?:a)(?:b)", "(?:ab)", "ab", "(?i)ab(?-i)cd",
+            "(?:a|b)c", "(?:ab){2}c", "\u{e9}(?:\u{20ac}a)", "(?:\u{e9}\u{20ac})a", "(?x: a b ) c", "(?:ab)(?:cd)(?:ef)", "(?:(?:(?:a)b)c)d", "a(?:b(?:c(?:d)))"];
+        let hosts = ["{}", "(?={})", "x(?!{})", "(?>{})d", "(?<={})d", "(?<!{})d", "(\\w)\\1{}", "(?:{})+\\1", "(x)?(?(1){}|y)", "(?:{})*+z\\b", "\\G{}\\K", "(?i){}(?<=x)", "({})\\1"];
+        for h in hosts.iter() {
+            for b in bodies.iter() {
+                let s = h.replace("{}", b);
+                budget.evals += 1;
+                if let Some(d) = check(&s) {
+                    return Some((json!({"pattern": s}), d));
+                }
+            }
+        }
         // (2) seeded random sequences of 4..8 tokens: a fixed share of the budget, so that the exhaustive part below keeps most of it
         let total = budget.deadline.saturating_duration_since(std::time::Instant::now());
         let random_until = std::time::Instant::now() + total / 4;
